@@ -35,6 +35,7 @@ type c10Params struct {
 	reader   bool // an application goroutine ranges over Inbound from the start
 	instants []int
 	tcp      bool
+	discFail bool // the socket write of the disconnect request fails (transient error); everything else works
 }
 
 type Census struct {
@@ -59,6 +60,14 @@ func c10Run(p c10Params) func() {
 		}
 		sock := fakesock.New(network)
 		gw := NewGateway(sock, 7)
+		if p.discFail {
+			sock.FailSend = func(v knxnet.ServicePackable) error {
+				if _, ok := v.(*knxnet.DiscReq); ok {
+					return fakesock.ErrSockClosed
+				}
+				return nil
+			}
+		}
 		switch p.base {
 		case "send":
 			// the first two transmissions of every request are lost
@@ -406,6 +415,12 @@ func init() {
 		register("thorough", &h.Scenario{Name: fmt.Sprintf("C10-%s-4closers", base), Prop: "C10", P: 1, F: 0, D: 1, Run: c10Run(p4), Check: c10Oracle(p4)})
 		p3 := c10Params{base: base, closers: 1, reader: true, instants: inst}
 		register("thorough", &h.Scenario{Name: fmt.Sprintf("C10-%s-1closer-P2", base), Prop: "C10", P: 2, F: 0, D: 3, Run: c10Run(p3), Check: c10Oracle(p3)})
+	}
+	// the write of the disconnect request fails while everything else works (heartbeat exchange in
+	// flight, Send pending, deliveries parked): Close must still end the tunnel completely
+	for _, base := range []string{"send", "inbound", "heartbeat"} {
+		pd := c10Params{base: base, closers: 1, reader: base != "inbound", instants: inst, discFail: true}
+		register("both", &h.Scenario{Name: fmt.Sprintf("C10-%s-disconnect-request-write-fails", base), Prop: "C10", P: 1, F: 0, D: 2, Run: c10Run(pd), Check: c10Oracle(pd)})
 	}
 	pt := c10Params{base: "inbound", closers: 2, reader: true, instants: []int{0, 100}, tcp: true}
 	register("both", &h.Scenario{Name: "C10-tcp-inbound-2closers", Prop: "C10", P: 1, F: 0, D: 1, Run: c10Run(pt), Check: c10Oracle(pt)})
